@@ -25,3 +25,23 @@ Theorem K108b_body : forall (c: sctx) (sort_keys: bool) (ty: row -> kv) (rows: l
   exists ordered, kernel_order sort_keys ty rows = Ok ordered /\ body c sort_keys rows = body c false ordered.
 Proof. exact K108b_body_lemma. Qed.
 Print Assumptions K108b_body.
+
+(* ---- the alias sources (kernel K4 = CodeBuilder.__get_field_alias, translated on this run) ---- *)
+From Verif Require Import KeyModel KeyImpl K108bAlias.
+
+(* the alias of a field plan: field metadata, else the last Annotated Alias, else the Config.aliases entry *)
+Theorem C08_alias_sources : forall (c: cls) (f: fld),
+  plan_alias c f = orelse (f_meta f) (orelse (ann_alias f) (assoc (c_aliases c) (f_name f))).
+Proof. exact plan_alias_sources_lemma. Qed.
+Print Assumptions C08_alias_sources.
+
+(* ... and the key written for it, in the dict-literal form and in the kwargs form: renamed iff by-alias is in effect
+   (statically, or at run time where the by_alias keyword exists), whatever the source of the alias *)
+Theorem C08_alias_key : forall (sc: sctx) (c: cls) (f: fld) (p: fplan),
+  p.(p_name) = f_name f -> p.(p_alias) = plan_alias c f ->
+  let renamed := match orelse (f_meta f) (orelse (ann_alias f) (assoc (c_aliases c) (f_name f))) with
+                 | Some a => a | None => f_name f end in
+  key_lit sc p = (if sc.(s_ba) then renamed else f_name f) /\
+  key_kw sc p = (if (if sc.(s_fba) then sc.(r_ba) else sc.(s_ba)) then renamed else f_name f).
+Proof. exact plan_alias_key_lemma. Qed.
+Print Assumptions C08_alias_key.
